@@ -794,10 +794,26 @@ class RequestorLoop(LoopSpec):
                  len(ts) == 1 and I.valid(_b(I.eq(ts[0], UIDv(g["ac_ts"](wv, 0))))))
         # roles
         rq_roles = g["rq_ctx_roles"].get(str(r), (None, None))
-        reply = g.get("reply_lookup") if g.get("has_reply") else (None, None)
         accepted = f.get("result")
         acc = I.valid(_b(I.eq(accepted, 0)))
         rej = I.valid(z3.Not(_b(I.eq(accepted, 0))))
+        # the acceptor's role reply for this abstract syntax, read from the map's own (memoised) membership query - the same
+        # query whichever way the code asked (`in`, `[...]` inside try/except, `.get(...)`)
+        rmap = g.get("roles_map")
+        if rmap is None:
+            reply = (None, None)
+        else:
+            rb, rw = rmap.witness(I, f["_abstract_syntax"])
+            if I.valid(rb.e):
+                reply = rmap.val_at(rw.e)
+            elif I.valid(z3.Not(rb.e)):
+                reply = (None, None)
+            else:
+                if acc:
+                    I.ob(f"{P}/an-accepted-context-consults-the-acceptor's-role-replies", False,
+                         detail="the roles of an accepted context were fixed without looking for a role reply")
+                    return
+                reply = (None, None)
         got = (f.get("_as_scu"), f.get("_as_scp"))
         if acc and None not in reply:
             want = R.outcome(rq_roles, reply)[:2]
@@ -853,6 +869,7 @@ def mk_requestor_inputs(I):
         roles = SymMap(I, "roles", nro.e, lambda i: UIDv(ro_ab(i)), val)
     else:
         roles = None
+    g["roles_map"] = roles
     return rq, ac, roles
 
 
@@ -1039,6 +1056,21 @@ class _EqDict:
         if not ok:
             raise PyRaise(ExcVal("KeyError", (k,)))
         return v
+
+    def sym_len(self, I):
+        return len(self.items_)
+
+    def sym_method(self, I, name, args, kw):
+        if name == "get":
+            ok, v = self._find(I, args[0])
+            return v if ok else (args[1] if len(args) > 1 else kw.get("default"))
+        if name == "items":
+            return list(self.items_)
+        if name == "keys":
+            return [k for k, _ in self.items_]
+        if name == "values":
+            return [v for _, v in self.items_]
+        return NotImplemented
 
 
 # ---------------------------------------------------------------------------------------------
